@@ -697,6 +697,54 @@ pub fn dispatch(op: &str, t: &mut Toks) -> R<String> {
             let us: u32 = t.num()?;
             op_addsh(m, s, us)
         }
+        "READ" | "AREAD" => {
+            let w = t.boolean()?;
+            let f = t.opt(|t| t.filter())?;
+            let sched = crate::reader::steps(t)?;
+            let data = t.bytes()?;
+            if op == "READ" {
+                crate::reader::op_read(w, f, sched, data)
+            } else {
+                crate::reader::op_aread(w, f, sched, data)
+            }
+        }
+        "FILT" => {
+            let w = t.boolean()?;
+            let f = t.filter()?;
+            let bs = t.bytes()?;
+            let borrowed = bs.len() % 2 == 0;
+            let pf = processed(&Some(f), borrowed);
+            match guard(|| {
+                let plain = dlt_message(&bs, None, w);
+                let filtered = dlt_message(&bs, pf.as_ref(), w);
+                let same = match (&plain, &filtered) {
+                    (Ok((r, ParsedMessage::Item(m))), Ok((r2, ParsedMessage::Item(m2)))) => {
+                        p_bool(same_msg(m, m2) && r.len() == r2.len()).to_string()
+                    }
+                    (Ok((r, _)), Ok((r2, _))) => p_bool(r.len() == r2.len()).to_string(),
+                    _ => "na".to_string(),
+                };
+                format!("{} -> {} same={}", p_class(&plain), p_class(&filtered), same)
+            }) {
+                Some(s) => s,
+                None => format!("PANIC{}", oracle(false, "panic")),
+            }
+        }
+        "STATS" => {
+            let w = t.boolean()?;
+            let k: usize = t.num()?;
+            let mut lens = Vec::with_capacity(k);
+            for _ in 0..k {
+                lens.push(t.num::<usize>()?);
+            }
+            let nt: usize = t.num()?;
+            let mut tree = Vec::with_capacity(nt);
+            for _ in 0..nt {
+                tree.push(t.tok()?);
+            }
+            let bytes = t.bytes()?;
+            crate::stats::op_stats(w, &lens, &tree, &bytes)
+        }
         _ => return Err(format!("unknown op {}", op)),
     };
     if !t.done() {
